@@ -8,7 +8,6 @@ with the actions interpreted by harness/c10/driver_test.go:
 (ini = [] | [spawn, hrev, conn]; times are ns relative to T0 - 1000 ns, 0 = zero time).
 """
 import json
-import os
 from check import Part
 
 ID = "C10"
@@ -130,7 +129,7 @@ class Gen:
         if st["phase"] == 3 and (ini or nc):
             return
         rev = nc[1] if nc else st["rev"]
-        if ini and ini[1] != rev:
+        if (ini[1] if ini else st["hrev"]) != rev:
             return
         if nc:
             st["rev"] = nc[1]
@@ -176,9 +175,6 @@ class Gen:
         self.now += dt
         self.ops.append([7, dt, failclient])
         due = [c for c in self.cons if c["phase"] == 2 and c["spawn"] <= self.now]
-        for c in due[:200]:
-            if c["rev"] != c["hrev"] and not (c["optin"] & {2, 3}):
-                return                                    # the block fails (approximation)
         for c in due[:200]:
             if (c["optin"] & {2, 3}) and not c["conn"] and not failclient:
                 c["phase"], c["client"] = 3, True
@@ -256,7 +252,8 @@ W_LAUNCH = {"create": 24, "update": 20, "optin": 18, "begin": 16, "end": 5, "rem
 
 
 def halting_history(rng):
-    """The chain-id revision change that makes the launch fallback fail (finding C10-F1)."""
+    """Regression for finding C10-F1: a chain-id-only update that changes the revision made the launch fallback fail
+    and BeginBlock return an error; the fixed UpdateConsumer rejects the update (monitor clause 10 guards it)."""
     g = Gen(rng, 50)
     for _ in range(rng.randint(0, 2)):
         g.create()
@@ -286,6 +283,10 @@ def big_history(rng):
     for i in range(n):
         if i % 4 != 1:
             g.optin(i, v=3 if i % 5 else 0, key=0)
+    # bulk set-up: only every 25th action is observed
+    for j, o in enumerate(g.ops):
+        if j % 25 != 24:
+            o[0] = -o[0]
     # a few reschedules move consumers to the back of their queue entry
     for _ in range(rng.randint(0, 5)):
         c = rng.randrange(n)
@@ -298,9 +299,8 @@ def big_history(rng):
 
 
 def gen(rng, tier):
-    if not os.environ.get("VERIF_NO_KNOWN"):
-        for _ in range(3):
-            yield halting_history(rng)
+    for _ in range(3):
+        yield halting_history(rng)
     total = 500 if tier == "quick" else 6000
     for i in range(total):
         n = rng.choice([6, 10, 15, 25, 40]) if rng.random() < 0.9 else rng.randint(40, 90)
@@ -356,16 +356,9 @@ def describe(codes):
     return "; ".join(CLAUSES.get(c, str(c)) for c in codes)
 
 
-def known(case, inp, implobs, modelobs, mon):
-    # finding C10-F1: only clause 10 fails and model and implementation agree on everything observed
-    if mon == [10] and implobs == modelobs:
-        return "C10-F1"
-    return None
-
-
 def histogram(part, c):
-    n = sum(1 for o in c["ops"] if o[0] == 1)
+    n = sum(1 for o in c["ops"] if abs(o[0]) == 1)
     return ["consumers<=10" if n <= 10 else "consumers<=200" if n <= 200 else "consumers>200", "ops<=20" if len(c["ops"]) <= 20 else "ops>20"]
 
 
-PARTS = [Part("lifecycle", "c10", "lifecycle", gen, nontrivial=nontrivial, describe=describe, known=known)]
+PARTS = [Part("lifecycle", "c10", "lifecycle", gen, nontrivial=nontrivial, describe=describe)]
